@@ -367,6 +367,50 @@ class Emit:
         for bn, insts in f.blocks.items():
             for I in insts:
                 if I['res']: local(I['res'])
+        # ---- pointer shadows.  clang lowers atomic<T*> accesses to i64 loads/stores/cmpxchg + inttoptr/ptrtoint.  cbmc tracks points-to sets
+        # only through pointer-typed values: a pointer that travels through an integer VARIABLE is dereferenced into a fresh "$object"
+        # (stores are lost, loads return garbage - unsound in both directions; met on c01_coro).  Every i64 value that flows into an
+        # inttoptr therefore gets a pointer-typed twin (<name>_p) that is loaded/stored/copied alongside and is what inttoptr uses.
+        idefs = {}
+        for bn, insts in f.blocks.items():
+            for I in insts:
+                if I['res']: idefs[I['res']] = I
+        def is_i64(t): return isinstance(t, IntTy) and t.n == 64
+        S = set(); work = []
+        for bn, insts in f.blocks.items():
+            for I in insts:
+                if I['op'] == 'inttoptr' and I['a'][0] == 'reg' and is_i64(I['fty']): work.append(I['a'][1])
+        while work:
+            v = work.pop()
+            if v in S or v not in idefs: continue
+            D = idefs[v]; op_ = D['op']
+            if op_ == 'phi' and is_i64(D['ty']):
+                S.add(v)
+                for (iv, pb) in D['inc']:
+                    if iv[0] == 'reg': work.append(iv[1])
+            elif op_ == 'select' and is_i64(D['a'][0]):
+                S.add(v)
+                for k_ in ('a', 'b'):
+                    if D[k_][1][0] == 'reg': work.append(D[k_][1][1])
+            elif op_ == 'load' and is_i64(D['ty']): S.add(v)
+            elif op_ == 'atomicrmw' and D['rmw'] == 'xchg' and is_i64(D['val'][0]): S.add(v)
+            elif op_ == 'extractvalue' and D['idx'] == [0] and D['a'][1][0] == 'reg' and idefs.get(D['a'][1][1], {}).get('op') == 'cmpxchg' and is_i64(idefs[D['a'][1][1]]['cmp'][0]):
+                S.add(v); S.add(D['a'][1][1])
+            elif op_ == 'freeze' and is_i64(D['ty']):
+                S.add(v)
+                if D['a'][0] == 'reg': work.append(D['a'][1])
+        for bn, insts in f.blocks.items():
+            for I in insts:
+                if I['op'] == 'ptrtoint' and I['res'] and is_i64(I['tty']): S.add(I['res'])      # twin assigned at the ptrtoint itself
+        s.ptr_shadow = S
+        VOIDP = PtrTy(IntTy(8))
+        def shadow(t, v):
+            """pointer-typed C expression for the i64 operand (t, v)"""
+            if v[0] == 'reg':
+                if v[1] in S and idefs[v[1]]['op'] != 'cmpxchg': return s.fnames[v[1]] + '_p'
+            return '((unsigned char *)(uintptr_t)%s)' % s.val(t, v)
+        def has_shadow(v):
+            return v[0] == 'reg' and v[1] in S and idefs[v[1]]['op'] != 'cmpxchg'
         # indirect call candidates (needed by is_yield_inst)
         for bn, insts in f.blocks.items():
             for I in insts:
@@ -417,7 +461,7 @@ class Emit:
         def declare(t, name, res=None):
             d = s.cty(t, name) + ';'
             if gs: sdecls.append('static ' + d)      # every value persists: a resumed clone re-walks its CFG with execution switched off
-            elif coro and (res is None or res in static_vals): sdecls.append('static ' + d)
+            elif coro and (res is None or res in static_vals or os.environ.get('VERIF_ALL_STATIC')): sdecls.append('static ' + d)
             else: decls.append(d)
         retdummy = ''
         if coro and not isinstance(f.ret, VoidTy):
@@ -484,14 +528,16 @@ class Emit:
             mv = phis.get((frm, to), [])
             out = ''
             is_back = (frm, to) in all_bedges
-            if len(mv) == 1:
-                d, t, v = mv[0]; out += '%s = %s; ' % (s.fnames[d], s.val(t, v))
-            elif mv:
+            mvx = []       # (destination C name, C declaration of a temporary, value expression)
+            for (d, t, v) in mv:
+                mvx.append((s.fnames[d], s.cty(t, 'phi_t%d' % len(mvx)), s.val(t, v)))
+                if d in S: mvx.append((s.fnames[d] + '_p', 'unsigned char *phi_t%d' % len(mvx), shadow(t, v)))
+            if len(mvx) == 1:
+                out += '%s = %s; ' % (mvx[0][0], mvx[0][2])
+            elif mvx:
                 o2 = ''
-                for i, (d, t, v) in enumerate(mv):
-                    o2 += '%s = %s; ' % (s.cty(t, 'phi_t%d' % i), s.val(t, v))
-                for i, (d, t, v) in enumerate(mv):
-                    o2 += '%s = phi_t%d; ' % (s.fnames[d], i)
+                for i, (dn, decl, ve) in enumerate(mvx): o2 += '%s = %s; ' % (decl, ve)
+                for i, (dn, decl, ve) in enumerate(mvx): o2 += '%s = phi_t%d; ' % (dn, i)
                 out += '{ ' + o2 + '} '
             return out + 'goto %s;' % (latch_label(to) if is_back else labels[to])
         def emit_latches(bn):
@@ -546,30 +592,50 @@ class Emit:
                     setres(IntTy(1), e)
                 elif op == 'icmp':
                     setres(IntTy(1), s.icmp(I['pred'], I['ty'], s.val(I['ty'], I['a']), s.val(I['ty'], I['b'])))
+                elif op == 'inttoptr' and is_i64(I['fty']) and has_shadow(I['a']):
+                    setres(I['tty'], '((%s)%s)' % (s.cty(I['tty']), shadow(I['fty'], I['a'])))
                 elif op in CASTS:
                     setres(I['tty'], s.cast(op, I['fty'], s.val(I['fty'], I['a']), I['tty']))
+                    if op == 'ptrtoint' and r in S:
+                        declare(VOIDP, rn + '_p', r); body.append('  %s_p = (unsigned char *)%s;' % (rn, s.val(I['fty'], I['a'])))
                 elif op == 'freeze':
                     setres(I['ty'], s.val(I['ty'], I['a']))
+                    if r in S: declare(VOIDP, rn + '_p', r); body.append('  %s_p = %s;' % (rn, shadow(I['ty'], I['a'])))
                 elif op == 'select':
                     setres(I['a'][0], '(%s ? %s : %s)' % (s.val(*I['c']), s.val(*I['a']), s.val(*I['b'])))
+                    if r in S: declare(VOIDP, rn + '_p', r); body.append('  %s_p = (%s ? %s : %s);' % (rn, s.val(*I['c']), shadow(*I['a']), shadow(*I['b'])))
                 elif op == 'getelementptr':
                     setres(PtrTy(s.gep_result_ty(I['bty'], I['idx'])), s.gep(I['bty'], I['base'], I['idx']))
                 elif op == 'load':
                     pe = s.val(*I['ptr'])
                     if I['atomic']: yld('atomic load')
-                    setres(I['ty'], '*%s' % pe)
+                    if r in S:
+                        declare(VOIDP, rn + '_p', r)
+                        body.append('  %s_p = *(unsigned char **)%s;' % (rn, pe))
+                        setres(I['ty'], '(uint64_t)(uintptr_t)%s_p' % rn)
+                    else:
+                        setres(I['ty'], '*%s' % pe)
                 elif op == 'store':
                     pe = s.val(*I['ptr']); ve = s.val(*I['val'])
                     if I['atomic']: yld('atomic store')
-                    body.append('  *%s = %s;' % (pe, ve))
+                    if is_i64(I['val'][0]) and has_shadow(I['val'][1]):
+                        body.append('  *(unsigned char **)%s = %s;' % (pe, shadow(*I['val'])))
+                    else:
+                        body.append('  *%s = %s;' % (pe, ve))
                 elif op == 'cmpxchg':
                     t = I['cmp'][0]
                     lt = StructTy([t, IntTy(1)])
                     declare(lt, rn, r)
                     pe = s.val(*I['ptr'])
                     yld('cmpxchg')
-                    body.append('  %s.f0 = *%s; %s.f1 = (%s.f0 == %s); if (%s.f1) *%s = %s;'
-                                % (rn, pe, rn, rn, s.val(*I['cmp']), rn, pe, s.val(*I['new'])))
+                    if is_i64(t) and (r in S or has_shadow(I['new'][1])):
+                        # pointer-carrying word: read and write the cell through a pointer-typed lvalue
+                        declare(VOIDP, rn + '_p', r)
+                        body.append('  %s_p = *(unsigned char **)%s; %s.f0 = (uint64_t)(uintptr_t)%s_p; %s.f1 = (%s.f0 == %s); if (%s.f1) *(unsigned char **)%s = %s;'
+                                    % (rn, pe, rn, rn, rn, rn, s.val(*I['cmp']), rn, pe, shadow(*I['new'])))
+                    else:
+                        body.append('  %s.f0 = *%s; %s.f1 = (%s.f0 == %s); if (%s.f1) *%s = %s;'
+                                    % (rn, pe, rn, rn, s.val(*I['cmp']), rn, pe, s.val(*I['new'])))
                 elif op == 'atomicrmw':
                     t = I['val'][0]; pe = s.val(*I['ptr']); ve = s.val(*I['val'])
                     declare(t, rn, r)
@@ -582,7 +648,11 @@ class Emit:
                         new = '(%s ? %s : %s)' % (c, rn, ve)
                     else: raise Unsupported('atomicrmw ' + k)
                     yld('atomicrmw ' + k)
-                    body.append('  %s = *%s; *%s = %s;' % (rn, pe, pe, new))
+                    if k == 'xchg' and is_i64(t) and (r in S or has_shadow(I['val'][1])):
+                        declare(VOIDP, rn + '_p', r)
+                        body.append('  %s_p = *(unsigned char **)%s; %s = (uint64_t)(uintptr_t)%s_p; *(unsigned char **)%s = %s;' % (rn, pe, rn, rn, pe, shadow(*I['val'])))
+                    else:
+                        body.append('  %s = *%s; *%s = %s;' % (rn, pe, pe, new))
                 elif op == 'fence':
                     yld('fence')
                 elif op == 'alloca':
@@ -617,6 +687,7 @@ class Emit:
                     body.append('  ' + jump(bn, I['default']))
                 elif op == 'phi':
                     declare(I['ty'], rn, r)
+                    if r in S: declare(VOIDP, rn + '_p', r)
                 elif op == 'extractvalue':
                     t = I['a'][0]; e = s.val(*I['a'])
                     for i in I['idx']:
@@ -624,6 +695,8 @@ class Emit:
                         if isinstance(rr, StructTy): e += '.f%d' % i; t = rr.els[i]
                         else: e += '[%d]' % i; t = rr.el
                     setres(t, e)
+                    if r in S and idefs.get(I['a'][1][1], {}).get('op') == 'cmpxchg':
+                        declare(VOIDP, rn + '_p', r); body.append('  %s_p = %s_p;' % (rn, s.fnames[I['a'][1][1]]))
                 elif op == 'insertvalue':
                     t = I['a'][0]
                     declare(t, rn, r)
